@@ -117,12 +117,12 @@ CLAIMS['C09'] = dict(
     design='§4 (C09), §5')
 CLAIMS['C14'] = dict(
     text=('Partial: kernel pairs export∘import of the raw <-> protobuf conversion on symbolic values: Rect (compared as boxes; and '
-          'proto->raw->proto gives the equal message), Polygon (3 points), Path (2 points, width), nets on each shape kind (Some(net) <-> '
-          'non-empty string), Instance (name, target cell, location, reflection, rotation None/90/180/270), Units and text annotations; '
+          'proto->raw->proto gives the equal message), Polygon (3 points), Path (2 points, width), Instance (name, target cell, location, reflection, rotation None/90/180/270), Units and text annotations; '
           'Units::Pico => Err; each mandatory sub-message removed in turn => Err, the complete message accepted.'),
     note=('ProtoImporter::import_reference is stubbed to a harness-chosen cell for local references (it wraps a HashMap lookup). Dropped: '
           'dependency-ordered export, reference resolution, per-layer grouping, layer/purpose numbers, abstracts (hash containers). Names '
-          'are fixed one-character strings (their content is only cloned).'),
+          'are fixed strings (their content is only cloned). Net names on shapes (export_element / convert_shape) run out of memory and are '
+          'kept as c14_x_nets_* experiments only.'),
     design='§4 C14')
 
 NOT_APPLICABLE = {
@@ -140,6 +140,9 @@ NOT_APPLICABLE = {
 
 PENDING = {}
 
+# properties whose thorough tier has been run green on this tree (others register the quick command only)
+THOROUGH_OK = {'C15', 'C09', 'C14'}  # for these the thorough tier is the same harness set as the quick tier
+
 
 def main():
     props = [json.loads(l)['id'] for l in open(os.path.join(VERIF, 'properties.jsonl'))]
@@ -152,17 +155,19 @@ def main():
     for p in props:
         if p in CLAIMS:
             c = CLAIMS[p]
-            checks.append(dict(
+            entry = dict(
                 property_id=p,
                 quick_cmd=f'bin/check {p} --tier quick',
-                thorough_cmd=f'bin/check {p} --tier thorough',
                 evidence_file=f'/verif/evidence/{p}.json',
                 replay_cmd_template=f'bin/check {p} --replay {{path}}',
                 engine='kani-cbmc',
                 level_claimed=dict(category='model_checking', text=c['text'], design_ref='DESIGN.md ' + c['design']),
                 level_note=c['note'],
                 technique=TECH,
-            ))
+            )
+            if p in THOROUGH_OK:
+                entry['thorough_cmd'] = f'bin/check {p} --tier thorough'
+            checks.append(entry)
     na = []
     for p in props:
         if p in CLAIMS:
